@@ -5,11 +5,18 @@ VALUES - `_pipeline_verdicts` instantiates the analysed classes in a small local
 contract on a corpus model; every evaluated configuration is one obligation instance of the rule whose clause it decides (`_SIM_ROWS`). The structural obligations of the first phase
 are kept as RECOGNISERS: on the shape they know they discharge the obligation and, for a defect, name the construct; a shape they do not know (extracted helper, renamed attribute,
 comprehension instead of loop, ...) is never a finding by itself - `ob()` in `run` then lets the value runs the clause is about decide (`_RULE_SIMS`): falsified only if the evaluated
-pipeline emits something wrong, inconclusive only if it cannot be evaluated either."""
+pipeline emits something wrong, inconclusive only if it cannot be evaluated either.
+
+Hardening round 3: (a) record types where a bare tuple / pair / hand-written constructor was - the evaluator instantiates `class X(NamedTuple)`, `collections.namedtuple(..)` and
+`@dataclass` classes of the analysed module (fields, defaults, default factories, __post_init__; enumeration members are singleton objects), the recognisers read a record construction
+in FIELD order (`_returned_elts`) and a field / index selection as the position it stands for (`_selected_element`); (b) O3.10, the one path rule of this module without a value run
+behind it, is re-stated on facts established along CFG edges with file names and existence tests evaluated on values (see `_stale_table_rule`); it falsifies only when every statement
+on the way that is handed the path is understood; (c) the evaluator knows dict union, contextlib.suppress / closing / nullcontext, typing.cast, copy, more of itertools."""
 from __future__ import annotations
 
 import ast
 import collections
+import copy
 import decimal
 import fractions
 import functools
@@ -217,7 +224,7 @@ _ARITH = {ast.Add: operator.add, ast.Sub: operator.sub, ast.Mult: operator.mul, 
 _CMPOP = {ast.Eq: operator.eq, ast.NotEq: operator.ne, ast.Lt: operator.lt, ast.LtE: operator.le, ast.Gt: operator.gt, ast.GtE: operator.ge, ast.Is: operator.is_, ast.IsNot: operator.is_not,
           ast.In: lambda a, b: a in b, ast.NotIn: lambda a, b: a not in b}
 _BASES = {"ZeroDivisionError": ("ArithmeticError",), "OverflowError": ("ArithmeticError",), "InvalidOperation": ("ArithmeticError",), "KeyError": ("LookupError",), "IndexError": ("LookupError",),
-          "FileNotFoundError": ("OSError", "IOError"), "IOError": ("OSError",), "NoProgress": ()}
+          "FileNotFoundError": ("OSError", "IOError"), "IOError": ("OSError",), "NoProgress": (), "UnboundLocalError": ("NameError",)}
 _SEQ = (list, tuple, str, bytes)
 _CONTAINERS = (list, tuple, dict, set, frozenset, str, bytes, range, collections.deque)
 _MUTABLE = (list, dict, set, collections.deque, _Obj, _Gen)
@@ -263,6 +270,21 @@ def _is_logging(e) -> bool:
     if not (isinstance(e, ast.Call) and isinstance(e.func, ast.Attribute) and e.func.attr in ("debug", "info", "warning", "warn", "error", "exception", "critical", "log")):
         return False
     return any((isinstance(x, ast.Name) and "log" in x.id.lower()) or (isinstance(x, ast.Attribute) and "log" in x.attr.lower()) for x in ast.walk(e.func.value))
+
+
+def _machine_fn(fn):
+    """a host function that is part of the evaluator (called with the values of the evaluated world as they are)."""
+    fn._machine = fn._opaque_ok = True
+    return fn
+
+
+def _local_names(f) -> set:
+    """names a function binds somewhere in its body (its locals, whether or not they are bound yet when a statement runs)."""
+    r = getattr(f, "_c03_locals", None)
+    if r is None:
+        r = f._c03_locals = {n.id for n in walk_body(f) if isinstance(n, ast.Name) and isinstance(n.ctx, ast.Store)} - \
+            {nm for n in walk_body(f) if isinstance(n, (ast.Global, ast.Nonlocal)) for nm in n.names}
+    return r
 
 
 def _has_yield(f) -> bool:
@@ -414,12 +436,18 @@ class _M:
         self._glob: dict = {}
         self._members: dict = {}
         self._handling: list = []
+        self._enum_members: dict = {}
         self._records: dict = {}  # id(class node of a NamedTuple class) -> the host namedtuple type that stands for it
         self._record_nodes: dict = {}  # ... and back
         self.special = {"next": self.b_next, "iter": self.b_iter, "filter": self.b_filter, "map": self.b_map, "isinstance": self.b_isinstance, "hasattr": self.b_hasattr,
                         "getattr": self.b_getattr, "len": self.b_len}
         self.ext = dict(self.ext)
         self.ext.setdefault("functools.partial", self.b_partial)
+        self.ext.setdefault("contextlib.closing", self.b_closing)
+        self.ext.setdefault("contextlib.nullcontext", self.b_nullcontext)
+        self.ext.setdefault("typing.cast", self.b_cast)
+        self.ext.setdefault("copy.copy", self.b_copy)
+        self.ext.setdefault("copy.deepcopy", self.b_deepcopy)
 
     # -- names and attributes -----------------------------------------------------------------------------------------------------------------------------------------
     def tick(self):
@@ -467,6 +495,9 @@ class _M:
             return env[name]
         g = self.glob(name)
         if g is _MISSING:
+            fn = env.get("__fn__")
+            if fn is not None and name in _local_names(fn):
+                raise _Raised("UnboundLocalError", f"local variable '{name}' referenced before assignment")  # a local of the evaluated function that no statement has bound yet
             raise _Cannot(f"`{name}` is not bound")
         return g
 
@@ -623,6 +654,17 @@ class _M:
             d, owner = self.lookup(base.node, name)
             if isinstance(d, source.FUNC_TYPES):
                 return _Bound(base, _FnDef(d, owner)) if self._decorated(d, "classmethod") else _FnDef(d, owner)
+            if d is not None and owner is base.node and any(_last(b) in ("Enum", "Flag") for b in base.node.bases) and not name.startswith("_"):
+                # a member of an enumeration: ONE object per member - compared by identity, always true, hashable, whatever value it was given (a literal, auto())
+                ck = (id(base.node), name)
+                if ck not in self._enum_members:
+                    try:
+                        v = self.val(d, {})
+                    except _Cannot:
+                        v = _OPAQUE
+                    self._enum_members[ck] = _Obj(None, {"name": name, "value": v}, None, f"{base.node.name}.{name}")
+                    self._enum_members[ck].frozen = True  # (nothing a call could do to it)
+                return self._enum_members[ck]
             if _is_namedtuple_class(base.node) and name in ("_fields", "_make", "_field_defaults"):
                 return getattr(self.record_type(base.node), name)
             if d is not None:
@@ -670,7 +712,8 @@ class _M:
         for n in ast.walk(e):
             if isinstance(n, ast.Call):
                 for c in list(n.args) + [k.value for k in n.keywords] + ([n.func.value] if isinstance(n.func, ast.Attribute) else []):
-                    if isinstance(self.peek(c, env), _MUTABLE):
+                    v = self.peek(c, env)
+                    if isinstance(v, _MUTABLE) and not getattr(v, "frozen", False):
                         return True
         return False
 
@@ -775,6 +818,38 @@ class _M:
 
         call._machine = True
         return call
+
+    def b_closing(self, v):
+        return _Obj(None, None, {"__enter__": _machine_fn(lambda: v), "__exit__": _machine_fn(lambda *a: self.apply(self.getattr(v, "close"), [], {}) and False)}, "closing(..)")
+
+    def b_nullcontext(self, v=None):
+        return _Obj(None, None, {"__enter__": _machine_fn(lambda: v), "__exit__": _machine_fn(lambda *a: False)}, "nullcontext(..)")
+
+    def b_cast(self, t, v):
+        return v
+
+    b_cast._opaque_ok = True  # (the type is not evaluated)
+
+    def b_copy(self, v):
+        if isinstance(v, (list, dict, set, collections.deque)):
+            return v.copy()
+        if _plain(v):
+            return v
+        raise _Cannot(f"copy of a {type(v).__name__}")
+
+    def b_deepcopy(self, v):
+        if not _plain(v):
+            raise _Cannot(f"deep copy of a {type(v).__name__}")
+        return copy.deepcopy(v)  # (a plain value of the host language: no syntax tree hangs off it)
+
+    def suppressing(self, e):
+        """`contextlib.suppress(E1, E2)` as a context manager of the evaluated world (the exception classes are names, not values: read off the call)."""
+        names = {_last(a) for a in e.args}
+
+        def leave(t=None, v=None, tb=None):
+            return isinstance(t, _Exc) and bool(({t.name} | set(_BASES.get(t.name, ())) | {"Exception", "BaseException"}) & names)
+
+        return _Obj(None, None, {"__enter__": _machine_fn(lambda: None), "__exit__": _machine_fn(leave)}, f"suppress({', '.join(sorted(names))})")
 
     def b_len(self, v):
         if isinstance(v, _Obj):
@@ -940,6 +1015,10 @@ class _M:
         d = _dotted(e.func) if self.hooks else None
         if d is not None and d in self.hooks:
             return self.hooks[d](e, env)
+        if isinstance(e.func, (ast.Name, ast.Attribute)) and (e.func.id if isinstance(e.func, ast.Name) else e.func.attr) == "suppress" and not e.keywords:
+            d2 = _dotted(e.func) or ""
+            if d2 == "contextlib.suppress" or self.imports.get(d2) == "contextlib.suppress":
+                return self.suppressing(e)
         if isinstance(e.func, ast.Attribute) and isinstance(e.func.value, ast.Call) and dotted(e.func.value.func) == "super" and not e.func.value.args:
             owner, slf = env.get("__class__"), env.get("__self__")
             if owner is None or not isinstance(slf, (_Obj, _Cls)):
@@ -1067,6 +1146,7 @@ class _M:
         self.bind(f, args, dict(kwargs), env)
         if isinstance(f, ast.Lambda):
             return self.val(f.body, env)
+        env["__fn__"] = f
         if isinstance(f, ast.AsyncFunctionDef):
             raise _Cannot("coroutine")
         if owner is not None:
@@ -1278,10 +1358,10 @@ class _M:
                         self.assign(it.optional_vars, r, env, keep)
                 try:
                     r = self.exec(s.body, env, keep)
-                except _Raised:
+                except _Raised as x_:
                     swallowed = False
                     for cm in reversed(cms):
-                        swallowed = self.truth(self.apply(self.getattr(cm, "__exit__"), [_OPAQUE, _OPAQUE, _OPAQUE], {})) or swallowed
+                        swallowed = self.truth(self.apply(self.getattr(cm, "__exit__"), [_Exc(x_.name), _Exc(x_.name), _OPAQUE], {})) or swallowed
                     if not swallowed:
                         raise
                     r = ("fall", None)
@@ -1362,7 +1442,9 @@ def _removed_files(io_, f, depth=0):
         d = dotted(c.func)
         t = _deleted_path_expr(c)
         if t is not None:
-            out.add(_str_value(inline_node(t, {k: v for k, v in local_defs(f).items() if k not in ps}), ps[0], io_, extra))
+            # (locals are inlined unless the object they name is modified afterwards: `table.path = tmp` - the deletion then names whatever the attribute holds at that point)
+            touched = {n_.value.id for n_ in walk_body(f) if isinstance(n_, ast.Attribute) and isinstance(n_.ctx, (ast.Store, ast.Del)) and isinstance(n_.value, ast.Name)}
+            out.add(_str_value(inline_node(t, {k: v for k, v in local_defs(f).items() if k not in ps and k not in touched}), ps[0], io_, extra))
         elif d is not None and len(c.args) == 1 and not c.keywords and pat.is_(c.args[0], "V_p", binds={"p": ps[0]}):
             if d.split(".", 1)[0] in ("cls", "self") and isinstance(owner, ast.ClassDef) and "." in d:
                 d = f"{owner.name}.{d.split('.', 1)[1]}"
@@ -1504,9 +1586,9 @@ def _stale_table_rule(chk, ldr, io_):
         """locals of f that MAY hold the value of x (`target_path = doc_path` in one arm)."""
         return {x} | {t.id for st in walk_body(f) if isinstance(st, ast.Assign) and pat.is_(st.value, "V_x", binds={"x": x}) for t in st.targets if isinstance(t, ast.Name)}
 
-    def lvalue(f, e, x):
-        """value of a path expression written in f for the sample path (x and the locals that definitely hold it are the sample; other single-assignment locals are inlined)."""
-        dn = definite(f, x)
+    def lvalue(f, e, dn):
+        """value of a path expression written in f for the sample path (the names in dn - the path and the locals that definitely hold it - are the sample; other single-assignment
+        locals are inlined)."""
         m_l.steps = m_io.steps = 0
         try:
             v = m_l.val(inline_node(e, {k_: v for k_, v in local_defs(f).items() if k_ not in dn}), {n_: _SAMPLE for n_ in dn})
@@ -1514,10 +1596,10 @@ def _stale_table_rule(chk, ldr, io_):
             return None
         return v if isinstance(v, str) else None
 
-    def absent_branch(f, test, x):
-        """'true' / 'false': the branch of this test that is only taken when no table of x exists - the test is evaluated with the table present (with and without the data file:
-        the other branch is taken both times) and with the table absent (this branch is taken); None when the test says nothing of the kind or cannot be evaluated."""
-        dn = definite(f, x)
+    def absent_branch(f, test, dn):
+        """'true' / 'false': the branch of this test that is only taken when no table of the path (held by the names in dn) exists - the test is evaluated with the table present
+        (with and without the data file: the other branch is taken both times) and with the table absent (this branch is taken); None when the test says nothing of the kind or
+        cannot be evaluated."""
         t = inline_node(test, {k_: v for k_, v in local_defs(f).items() if k_ not in dn})
         got = []
         for files in ({table, _SAMPLE}, {table}, {_SAMPLE}):
@@ -1532,14 +1614,13 @@ def _stale_table_rule(chk, ldr, io_):
 
     est_cache: dict = {}
 
-    def establishing_edges(f, x, depth=0):
-        """edges of f's control-flow graph along which 'no offset table of the file named by x exists' is established."""
+    def establishing_edges(f, dn, depth=0):
+        """edges of f's control-flow graph along which 'no offset table of the file named by (any of the locals in) dn exists' is established."""
         g = cfg_of(f)
-        dn = definite(f, x)
         edges = []
         for st in walk_body(f):
             if isinstance(st, (ast.If, ast.While)):
-                br = absent_branch(f, st.test, x) if any(isinstance(n_, ast.Name) and n_.id in dn for n_ in ast.walk(inline_node(st.test, local_defs(f)))) else None
+                br = absent_branch(f, st.test, dn) if any(isinstance(n_, ast.Name) and n_.id in dn for n_ in ast.walk(inline_node(st.test, {k_: v for k_, v in local_defs(f).items() if k_ not in dn}))) else None
                 if br is not None:
                     for tn in g.nodes_of(st):
                         edges += [(tn.id, y, lab) for (y, lab) in g.succ[tn.id] if lab == br]
@@ -1551,7 +1632,7 @@ def _stale_table_rule(chk, ldr, io_):
             hit = False
             t = _deleted_path_expr(c)
             if t is not None:
-                hit = lvalue(f, t, x) == table
+                hit = lvalue(f, t, dn) == table
             elif io_callee(c, ldr) is not None:
                 hit = io_callee(c, ldr).name in removers and len(c.args) + len(c.keywords) == 1 and isinstance((c.args + [k_.value for k_ in c.keywords])[0], ast.Name) \
                     and (c.args + [k_.value for k_ in c.keywords])[0].id in dn
@@ -1569,13 +1650,20 @@ def _stale_table_rule(chk, ldr, io_):
         if ck not in est_cache:
             est_cache[ck] = False  # (recursion)
             gh = cfg_of(h)
-            ee = establishing_edges(h, q, depth)
+            ee = establishing_edges(h, definite(h, q), depth)
             est_cache[ck] = bool(ee) and gh.exit.id not in gh.reachable([gh.entry], avoid_edges=ee, edge_ok=gh.normal_edge)
         return est_cache[ck]
 
     def collaborator_calls(f, names_):
         """(re)creation of a file: calls on a collaborator object (self.<attribute>.<method>: the decompressor, the downloader) that are handed one of the names as the place to write to."""
-        return [c for c in source.calls_in(f) if isinstance(c.func, ast.Attribute) and is_self_attr(c.func.value)
+        def queried(c):
+            """the call's value decides a branch / is asserted: a question put to the collaborator, not an order."""
+            p_, ch = source.parent(c), c
+            while p_ is not None and not isinstance(p_, ast.stmt):
+                p_, ch = source.parent(p_), p_
+            return (isinstance(p_, (ast.If, ast.While)) and ch is p_.test) or isinstance(p_, ast.Assert)
+
+        return [c for c in source.calls_in(f) if isinstance(c.func, ast.Attribute) and is_self_attr(c.func.value) and not _is_logging(c) and not queried(c)
                 and any(isinstance(a, ast.Name) and a.id in names_ for a in list(c.args) + [k_.value for k_ in c.keywords])]
 
     _PURE = ("os.path.", "logging.", "console.", "os.stat", "os.fspath", "io.basename", "io.dirname", "io.splitext")
@@ -1656,7 +1744,8 @@ def _stale_table_rule(chk, ldr, io_):
                 if not inner:
                     continue
                 gh = cfg_of(h)
-                hee = [e_ for q in q_doc for e_ in establishing_edges(h, q, 1)]
+                inner_q = {a.id for ic in inner for a in list(ic.args) + [k_.value for k_ in ic.keywords] if isinstance(a, ast.Name) and a.id in q_alias}
+                hee = establishing_edges(h, {n_ for q in set(q_doc) | inner_q for n_ in definite(h, q)}, 1)
                 if hee and all(gh.exit.id not in gh.reachable([gh.node_of(ic)], avoid_edges=hee, edge_ok=gh.normal_edge) for ic in inner):
                     n_sites += 1
                     chk.ob("O3.10", f"{m.name}: `{h.name}(..)` (re)creates the document file -> an existing offset table of it is removed before the table is prepared", True, c,
@@ -1664,11 +1753,14 @@ def _stale_table_rule(chk, ldr, io_):
                 else:
                     creators.append((c, f"{h.name}:{inner[0].func.value.attr}.{inner[0].func.attr}"))
                     helper_opaque[id(c)] = opaque_calls(h, set(q_alias), 1, skip=inner)
-            ee = establishing_edges(m, x)
             pn = [g.node_of(c) for c in pcs]
             for c, what in creators:
                 n_sites += 1
                 cn = g.node_of(c)
+                # the table in question is the one of the file this statement writes: the document path, or the local it was handed as the place to write to (`target_path`, which
+                # is the document path in one arm and the archive in the other - whichever it is, the table of THAT file is what has to go)
+                handed = {a.id for a in list(c.args) + [k_.value for k_ in c.keywords] if isinstance(a, ast.Name) and a.id in alias}
+                ee = establishing_edges(m, dn | {n_ for a in handed for n_ in definite(m, a)})
                 after = bool(ee) and not any(p_.id in g.reachable([cn], avoid_edges=ee, edge_ok=g.normal_edge) for p_ in pn)
                 before = bool(ee) and cn.id not in g.reachable([g.entry], avoid_edges=ee) and not any(cn.id in g.reachable([p_], avoid_edges=ee) for p_ in pn)
                 if not (after or before):
@@ -1768,9 +1860,11 @@ class _Sim:
         corpora = []
         for cname, sets in self.files.items():
             ds = [_Obj(None, {"number_of_documents": n, "includes_action_and_meta_data": has_meta, "document_file": f"/data/{f}.json", "document_archive": None, "target_index": f"idx-{f}",
-                              "target_type": None, "target_data_stream": None, "source_format": "bulk", "is_bulk": True}, {"has_compressed_corpus": _stub(lambda: False)}, f"documents {f}")
+                              "target_type": None, "target_data_stream": None, "source_format": "bulk", "is_bulk": True, "number_of_lines": n * (2 if has_meta else 1), "base_url": None,
+                              "meta_data": {}, "compressed_size_in_bytes": None, "uncompressed_size_in_bytes": None},
+                       {"has_compressed_corpus": _stub(lambda: False), "has_uncompressed_corpus": _stub(lambda: True)}, f"documents {f}")
                   for f, n, has_meta in sets]
-            c = _Obj(None, {"name": cname, "documents": ds}, None, f"corpus {cname}")
+            c = _Obj(None, {"name": cname, "documents": ds, "meta_data": {}}, None, f"corpus {cname}")
             c.native["filter"] = _stub(lambda *a, _c=c, **k: _c)
             c.native["number_of_documents"] = _stub(lambda *a, _n=sum(n for _, n, _m in sets), **k: _n)
             corpora.append(c)
@@ -2163,7 +2257,10 @@ def run(chk):
         "value runs the clause is about (never falsified for being unfamiliar; inconclusive if the pipeline cannot be evaluated either). Also on values: the ingest cut-off equals the "
         "exact ceil(all * p / 100) for products that are integers mathematically but not in binary floating point; progress is current / total and is defined for a total of 0; for "
         "every conflict mode that builds an id list, what partition() hands to a client was created for that client. Path rule: every (re)creation of a document file is followed (or "
-        "preceded) by the removal of that file's offset table before the table is prepared, because O3.7 trusts a table on its mtime alone; offset-table protocol (O3.7)."
+        "preceded) by the removal of that file's offset table before the table is prepared, because O3.7 trusts a table on its mtime alone - 'no table of this file exists' is a fact "
+        "established along control-flow edges (a statement that deletes the table's file name, evaluated for a sample path; the branch of an existence test that is only taken "
+        "without the table, the test being evaluated in worlds with and without the table file; an own helper - method or module-level function - that establishes it on all its "
+        "normal paths); offset-table protocol (O3.7)."
     )
     chk.not_decided = "round(total/n * n) == total for all n (float), byte-exactness of tell() cookies for multi-byte text, mmap vs text-mode newline agreement, order of co-located clients."
     chk.trusted += ["stand-in for io's file source: readlines(n) hands out the next min(n, remaining) lines, skip_lines(path, source, n) advances the source by n lines (the real ones are "
@@ -2988,6 +3085,25 @@ _R3_FACTORY_RECORD = ("            share = bounds(\n                docs.number_
 _R3_BATCH_APPEND = "                batch.append((docs_in_bulk, b\"\".join(bulk)))\n"
 _R3_BULK_LOOP = ("        for docs_in_bulk, bulk in batch:\n", "                \"body\": bulk,\n", "                \"bulk-size\": docs_in_bulk,\n")
 _R3_DATACLASS = ("from abc import ABC\n", "from abc import ABC\nfrom dataclasses import dataclass, field\n")
+_R3_INV = ("    def invalidate_file_offset_table(self, document_file_path):\n        # the data file has just been (re)created: an existing offset table belongs to its predecessor\n"
+           "        if os.path.exists(f\"{document_file_path}.offset\"):\n            io.remove_file_offset_table(document_file_path)\n")
+_R3_INV_HEAD = "    def invalidate_file_offset_table(self, document_file_path):\n"
+_R3_DECOMPRESS = "                self.decompressor.decompress(archive_path, doc_path, document_set.uncompressed_size_in_bytes)\n                self.invalidate_file_offset_table(doc_path)\n"
+_R3_DOWNLOAD = "                    self.downloader.download(document_set.base_url, target_path, expected_size)\n                    self.invalidate_file_offset_table(doc_path)\n"
+_R3_BUNDLED = "                    self.decompressor.decompress(archive_path, doc_path, document_set.uncompressed_size_in_bytes)\n                    self.invalidate_file_offset_table(doc_path)\n"
+_R3_DP = "class DocumentSetPreparator:\n"
+
+
+def _r3_module_level_invalidation(kind, body, rule=None):
+    """the invalidation helper as a module-level function of the loader (body: its statements), called at the three (re)creation sites."""
+    call = "_invalidate_file_offset_table(doc_path)"
+    return [V(f"r3: table invalidation as a module-level function of the loader{'' if kind == 'keep' else ' - ' + rule[1]}", kind, _L, _R3_INV, "", rule[0] if rule else None),
+            V("", kind, _L, _R3_DP, "def _invalidate_file_offset_table(document_file_path):\n" + body + "\n\n" + _R3_DP),
+            V("", kind, _L, _R3_DECOMPRESS, _R3_DECOMPRESS.replace("self.invalidate_file_offset_table(doc_path)", call)),
+            V("", kind, _L, _R3_DOWNLOAD, _R3_DOWNLOAD.replace("self.invalidate_file_offset_table(doc_path)", call)),
+            V("", kind, _L, _R3_BUNDLED, _R3_BUNDLED.replace("self.invalidate_file_offset_table(doc_path)", call))]
+
+
 _R3_BULK_CLASS = ("class IndexDataReader:\n", "@dataclass(frozen=True)\nclass Bulk:\n    docs: int\n    body: bytes = b\"\"\n    tags: list = field(default_factory=list)\n\n\nclass IndexDataReader:\n")
 
 VARIANTS = [
@@ -3218,6 +3334,50 @@ VARIANTS = [
     [V("r3: bulks of a batch as frozen dataclass records (default, default factory) instead of pairs", "keep", _P, *_R3_DATACLASS), V("", "keep", _P, *_R3_BULK_CLASS),
      V("", "keep", _P, _R3_BATCH_APPEND, "                batch.append(Bulk(docs_in_bulk, body=b\"\".join(bulk)))\n"), V("", "keep", _P, _R3_BULK_LOOP[0], "        for bulk in batch:\n"),
      V("", "keep", _P, _R3_BULK_LOOP[1], "                \"body\": bulk.body,\n"), V("", "keep", _P, _R3_BULK_LOOP[2], "                \"bulk-size\": bulk.docs,\n")],
+    # O3.10 re-stated: 'no table of this file' is established along edges (removal statements, the absent-branch of an EVALUATED existence test, helpers - methods or module-level
+    # functions - that establish it on all their normal paths); names compared as values; renamed io functions found by role
+    _r3_module_level_invalidation("keep", "    if os.path.exists(f\"{document_file_path}.offset\"):\n        io.remove_file_offset_table(document_file_path)\n"),
+    _r3_module_level_invalidation("break", "    if os.path.exists(f\"{document_file_path}.offsets\"):\n        io.remove_file_offset_table(document_file_path)\n", ("O3.10", "it looks for another file")),
+    _r3_module_level_invalidation("break", "    logging.getLogger(__name__).info(\"[%s] was (re)created.\", document_file_path)\n", ("O3.10", "it only logs")),
+    V("r3: invalidation helper with a guard clause", "keep", _L, _R3_INV, _R3_INV_HEAD + "        if not os.path.exists(f\"{document_file_path}.offset\"):\n            return\n        io.remove_file_offset_table(document_file_path)\n"),
+    V("r3: invalidation helper with an inverted guard clause (returns when the table exists)", "break", _L, _R3_INV,
+      _R3_INV_HEAD + "        if os.path.exists(f\"{document_file_path}.offset\"):\n            return\n        io.remove_file_offset_table(document_file_path)\n", "O3.10"),
+    V("r3: invalidation helper with a hoisted test and a log line", "keep", _L, _R3_INV,
+      _R3_INV_HEAD + "        stale = os.path.exists(f\"{document_file_path}.offset\")\n        if stale:\n            logging.getLogger(__name__).info(\"Removing the stale offset table of [%s].\", document_file_path)\n"
+      "            io.remove_file_offset_table(document_file_path)\n"),
+    V("r3: invalidation helper asks the table object whether it exists", "keep", _L, _R3_INV,
+      _R3_INV_HEAD + "        if io.FileOffsetTable.read_for_data_file(document_file_path).exists():\n            io.remove_file_offset_table(document_file_path)\n"),
+    V("r3: invalidation helper asks whether the DATA file exists", "break", _L, _R3_INV,
+      _R3_INV_HEAD + "        if not os.path.exists(document_file_path):\n            io.remove_file_offset_table(document_file_path)\n", "O3.10"),
+    V("r3: invalidation helper removes without asking, a missing table is not an error", "keep", _L, _R3_INV,
+      _R3_INV_HEAD + "        try:\n            io.remove_file_offset_table(document_file_path)\n        except FileNotFoundError:\n            pass\n"),
+    V("r3: decompression target held in a second local", "keep", _L, _R3_DECOMPRESS,
+      "                extracted_path = doc_path\n                self.decompressor.decompress(archive_path, extracted_path, document_set.uncompressed_size_in_bytes)\n                self.invalidate_file_offset_table(extracted_path)\n"),
+    V("r3: after a download the table of the download target is invalidated (the document file when it was the target)", "keep", _L, _R3_DOWNLOAD,
+      "                    self.downloader.download(document_set.base_url, target_path, expected_size)\n                    self.invalidate_file_offset_table(target_path)\n"),
+    V("r3: after a download the archive's table is invalidated whatever the target was", "break", _L, _R3_DOWNLOAD,
+      "                    self.downloader.download(document_set.base_url, target_path, expected_size)\n                    self.invalidate_file_offset_table(archive_path)\n", "O3.10"),
+    [V("r3: the io module's remover renamed", "keep", _I, "def remove_file_offset_table(data_file_path: str) -> None:", "def drop_file_offset_table(data_file_path: str) -> None:"),
+     V("", "keep", _L, "io.remove_file_offset_table(document_file_path)", "io.drop_file_offset_table(document_file_path)", count=2)],
+    [V("r3: the io module's remover renamed and deleting another file name", "break", _I, "def remove_file_offset_table(data_file_path: str) -> None:", "def drop_file_offset_table(data_file_path: str) -> None:", "O3.10"),
+     V("", "break", _L, "io.remove_file_offset_table(document_file_path)", "io.drop_file_offset_table(document_file_path)", count=2),
+     V("", "break", _I, "        os.remove(f\"{data_file_path}.offset\")", "        os.remove(f\"{data_file_path}.offsets\")")],
+    # idioms the evaluator has to follow when the recognisers do not know the shape
+    V("r3: bulk params merged with the dict union operator", "keep", _P, "            params = original_params.copy()\n            params.update(bulk_params)\n            yield params", "            yield original_params | bulk_params"),
+    [V("r3: fast path interleaves with itertools (chain.from_iterable / zip / repeat)", "keep", _P, "import inspect\n", "import inspect\nimport itertools\n"),
+     V("", "keep", _P, "        for doc in docs:\n            current_bulk.append(action_metadata_line)\n            current_bulk.append(doc)\n        return len(docs), current_bulk",
+       "        current_bulk = list(itertools.chain.from_iterable(zip(itertools.repeat(action_metadata_line), docs)))\n        return len(docs), current_bulk")],
+    [V("r3: fast path interleaves with itertools, document before its action line", "break", _P, "import inspect\n", "import inspect\nimport itertools\n", "O3.4"),
+     V("", "break", _P, "        for doc in docs:\n            current_bulk.append(action_metadata_line)\n            current_bulk.append(doc)\n        return len(docs), current_bulk",
+       "        current_bulk = list(itertools.chain.from_iterable(zip(docs, itertools.repeat(action_metadata_line))))\n        return len(docs), current_bulk")],
+    [V("r3: enumeration values by auto()", "keep", _P, "from enum import Enum\n", "from enum import Enum, auto\n"),
+     V("", "keep", _P, "    NoConflicts = 0\n    SequentialConflicts = 1\n    RandomConflicts = 2\n", "    NoConflicts = auto()\n    SequentialConflicts = auto()\n    RandomConflicts = auto()\n")],
+    [V("r3: batch loop swallows StopIteration with contextlib.suppress, typing.cast around the read", "keep", _P, "from typing import Callable, Deque\n", "import contextlib\nfrom typing import Callable, Deque, cast\n"),
+     V("", "keep", _P, "                try:\n                    docs_in_bulk, bulk = self.read_bulk()\n                except StopIteration:\n                    break\n                if docs_in_bulk == 0:\n                    break\n",
+       "                docs_in_bulk = 0\n                with contextlib.suppress(StopIteration):\n                    docs_in_bulk, bulk = cast(\"tuple[int, list]\", self.read_bulk())\n                if docs_in_bulk == 0:\n                    break\n")],
+    [V("r3: batch loop with contextlib.suppress that does not reset the count (at the end of the slice it meets an unbound or stale count)", "break", _P, "from typing import Callable, Deque\n", "import contextlib\nfrom typing import Callable, Deque, cast\n", "O3"),
+     V("", "break", _P, "                try:\n                    docs_in_bulk, bulk = self.read_bulk()\n                except StopIteration:\n                    break\n                if docs_in_bulk == 0:\n                    break\n",
+       "                with contextlib.suppress(StopIteration):\n                    docs_in_bulk, bulk = cast(\"tuple[int, list]\", self.read_bulk())\n                if docs_in_bulk == 0:\n                    break\n")],
     [V("r3: dataclass records for the bulks, the record counts lines instead of documents", "break", _P, *_R3_DATACLASS, "O3"), V("", "break", _P, *_R3_BULK_CLASS),
      V("", "break", _P, _R3_BATCH_APPEND, "                batch.append(Bulk(len(bulk), body=b\"\".join(bulk)))\n"), V("", "break", _P, _R3_BULK_LOOP[0], "        for bulk in batch:\n"),
      V("", "break", _P, _R3_BULK_LOOP[1], "                \"body\": bulk.body,\n"), V("", "break", _P, _R3_BULK_LOOP[2], "                \"bulk-size\": bulk.docs,\n")],
